@@ -9,7 +9,7 @@ func init() {
 		Explanation: "bounded symbolic execution with engine-level obligations on every path: (P) no panic reaches the harness from Load, Data.ICCProfile, ProfileReader.ReadProfile or Profile.Description; (A) at every make/append/new the allocated total stays <= 16*N + 128 KiB - for a symbolic size this is a satisfiability query whose model is the hostile file; (T) executed SSA instructions <= 4000*N + 200000. Inputs are N arbitrary symbolic bytes per loader and structured inputs in which every length/count/offset/size field is an unconstrained symbolic word",
 		Bounds: func(tier string) map[string]interface{} {
 			return map[string]interface{}{
-				"arbitrary_bytes_N": map[string]int{"pngmeta": 28, "jpegmeta": 12, "webpmeta": 40, "autometa": 12, "icc": 148},
+				"arbitrary_bytes_N": "quick: pngmeta 28, jpegmeta 12, webpmeta 40, autometa 12, icc 148; thorough: 32, 15, 52, 14, 148",
 				"structured":        "PNG: symbolic IHDR/iCCP/next-chunk lengths; JPEG: SOF + 2 APP2 ICC segments with symbolic chunk number in {0..4,255} and total in {0..3,255}; WebP: VP8X(flag)+ICCP with symbolic lengths; ICC: symbolic tag count + k<=2 entries with symbolic offset/size + 8 data bytes; desc: symbolic ASCII count; mluc: (a) symbolic record count+size with one well-formed record, (b) one record with unconstrained 32-bit length and offset, (c) two records with unconstrained record size; string content concrete (the property does not depend on it)",
 				"budget":            "allocated bytes <= 16*N + 131072; SSA instructions <= 4000*N + 200000 (autometa: N counted three times, one per loader)",
 				"zlib":              "stub; its output (5 symbolic bytes) is excluded from the claim (decompression ratio is the library's)",
@@ -17,14 +17,19 @@ func init() {
 			}
 		},
 		Runs: func(tier string, seed int64) []*Run {
+			g := func(n int64) map[string]int64 { return map[string]int64{"verifC09N": n} }
+			pn, jn, wn, an := int64(28), int64(12), int64(40), int64(12)
+			if tier == "thorough" {
+				pn, jn, wn, an = 32, 15, 52, 14
+			}
 			return []*Run{
-				{H: sym.Harness{Pkg: "meta/pngmeta", Func: "VerifHarness_C09_PNG_Arbitrary"}, ExpectReach: []string{"returned"}, SamplePaths: 3},
+				{H: sym.Harness{Pkg: "meta/pngmeta", Func: "VerifHarness_C09_PNG_Arbitrary", SetGlobals: g(pn), Workers: 14}, ExpectReach: []string{"returned"}, SamplePaths: 3},
 				{H: sym.Harness{Pkg: "meta/pngmeta", Func: "VerifHarness_C09_PNG_Chunks", Workers: 14}, ExpectReach: []string{"returned"}, SamplePaths: 3},
-				{H: sym.Harness{Pkg: "meta/jpegmeta", Func: "VerifHarness_C09_JPEG_Arbitrary"}, ExpectReach: []string{"returned"}, SamplePaths: 3},
+				{H: sym.Harness{Pkg: "meta/jpegmeta", Func: "VerifHarness_C09_JPEG_Arbitrary", SetGlobals: g(jn), Workers: 14}, ExpectReach: []string{"returned"}, SamplePaths: 3},
 				{H: sym.Harness{Pkg: "meta/jpegmeta", Func: "VerifHarness_C09_JPEG_ICC"}, ExpectReach: []string{"returned"}, SamplePaths: 3},
-				{H: sym.Harness{Pkg: "meta/webpmeta", Func: "VerifHarness_C09_WebP_Arbitrary"}, ExpectReach: []string{"returned"}, SamplePaths: 3},
+				{H: sym.Harness{Pkg: "meta/webpmeta", Func: "VerifHarness_C09_WebP_Arbitrary", SetGlobals: g(wn)}, ExpectReach: []string{"returned"}, SamplePaths: 3},
 				{H: sym.Harness{Pkg: "meta/webpmeta", Func: "VerifHarness_C09_WebP_ICCP"}, ExpectReach: []string{"returned"}, SamplePaths: 3},
-				{H: sym.Harness{Pkg: "meta/autometa", Func: "VerifHarness_C09_Auto_Arbitrary"}, ExpectReach: []string{"returned"}, SamplePaths: 3},
+				{H: sym.Harness{Pkg: "meta/autometa", Func: "VerifHarness_C09_Auto_Arbitrary", SetGlobals: g(an), Workers: 14}, ExpectReach: []string{"returned"}, SamplePaths: 3},
 				{H: sym.Harness{Pkg: "meta/icc", Func: "VerifHarness_C09_ICC_Arbitrary"}, ExpectReach: []string{"returned"}, SamplePaths: 3},
 				{H: sym.Harness{Pkg: "meta/icc", Func: "VerifHarness_C09_ICC_TagTable", Workers: 14}, ExpectReach: []string{"returned"}, SamplePaths: 3},
 				{H: sym.Harness{Pkg: "meta/icc", Func: "VerifHarness_C09_ICC_Desc", Workers: 14}, ExpectReach: []string{"returned"}, SamplePaths: 3},
